@@ -29,7 +29,7 @@ RULE = ('case = (scenario, fault kind, fault point[, recv size]); distinct = sam
         'lies strictly inside the conversation (not before its first byte)')
 ASSUMPTIONS = ['ARTIM = 10 s as in the library; peer silence is modelled by advancing the virtual clock by 11 s']
 REQUIRED = ['oracle.disconnect-ends-idle-closed', 'oracle.silence', 'oracle.stop-returns', 'oracle.user-told',
-            'oracle.kill-returns', 'oracle.stale-user-primitive']
+            'oracle.kill-returns', 'oracle.stale-user-primitive', 'oracle.connect-failure']
 
 
 def exhaustive(tier):
@@ -108,6 +108,7 @@ def run_shard(spec, tier, seed):
     if spec['kind'] == 'send-fails':
         from . import c13send
         c13send.cases(res)
+        c13send.connect_failures(res)
         return res
     role, steps = convo.corpus()[spec['name']]
     if spec['kind'] in ('close', 'reset'):
@@ -139,6 +140,7 @@ def replay(case):
     if case.get('kind') == 'send-fails':
         from . import c13send
         c13send.cases(res)
+        c13send.connect_failures(res)
         return res
     run_case(res, case, verbose=True)
     return res
